@@ -1,9 +1,11 @@
-\* non-vacuity: shipped NewTimedTransaction must violate Prop_C18 (nil timer)
+\* non-vacuity: with deviation F13nil (the shipped code) TLC must report Prop_C18 violated
+\* (the check generates its cfgs from families/transactions.py:TIERS; this file mirrors one of them for manual runs:
+\*  tlc -deadlock -config MC_Transactions_devF13nil.cfg Transactions)
 CONSTANTS
   Kinds = {"base", "retry", "timed"}
   RCs = {0}
   RDs = {1}
-  TOs = {0,1}
+  TOs = {0, 1}
   MaxOps = 1
   CbMayFail = TRUE
   Devs = {"F13nil"}
@@ -11,6 +13,4 @@ CONSTANTS
   Emit = "none"
 INIT Init
 NEXT Next
-INVARIANT TypeOK
 INVARIANT Prop_C18
-INVARIANT Prop_C19
